@@ -9,7 +9,7 @@ Used by C07/C08 (the recurrence ciphers must follow the recurrence through every
 C09/C10 (Wrath streams / headers), C11, C12, C14."""
 import copy
 import pyref, pyhdr
-from gen_util import hx, rbytes
+from gen_util import hx, rbytes, dict_ints, new_ints
 
 SIZES16 = [0, 1, 2, 3, 4, 5, 6, 0xFF, 0x100, 0x7FFF, 0x8000, 0xFFFE, 0xFFFF]
 OVERSIZE = [0x800000, 0x800010, 0x807FFF, 0x808000, 0x1000005, 0x7FFFFFFF, 0x80000000, 0xFFFFFFFF]
@@ -19,7 +19,18 @@ OPS32 = OPS16 + [0x10000, 0x10001, 0xFFFFFF, 0x1000000, 0x7FFFFFFF, 0x80000000, 
 ERRKINDS = [3, 6, 7, 8, 9, 1, 12, 11]
 
 def pick(rng, specials, bits):
-    return rng.choice(specials) if rng.random() < 0.5 else rng.getrandbits(bits)
+    n = new_ints(0, (1 << bits) - 1)
+    if n and rng.random() < 0.25:
+        return rng.choice(n)          # a literal the source did not have when the machinery was last validated
+    r = rng.random()
+    if r < 0.45:
+        return rng.choice(specials)
+    if r < 0.57:
+        # a value that occurs as a literal in the source under test (or its neighbour): what a branch on one magic opcode / size looks for
+        d = dict_ints(0, (1 << bits) - 1)
+        if d:
+            return rng.choice(d)
+    return rng.getrandbits(bits)
 
 def wire_for(sim, plain):
     """bytes that the simulated object's decrypter, in its current state, turns into `plain`"""
